@@ -6,7 +6,7 @@ ENGINES = [
      "kind_free_text": "parent/worker process pool, deterministic sliced enumeration, known-findings matcher, determinism gate (re-execution of each new violation), evidence + replay writer"},
     {"name": "SCHED", "path": "/verif/mc/sched", "serves_properties": ["C35", "C36", "C37", "C38", "C39"],
      "kind_free_text": "bounded-preemption (ICB) depth-first exploration of thread schedules of the real TurDB code compiled against a parking_lot shim over shuttle; schedules are choice vectors, replayed twice before a verdict is trusted"},
-    {"name": "BYTES/INPUT", "path": "/verif/mc/checks/src/bin", "serves_properties": ["C27", "C30"],
+    {"name": "BYTES/INPUT", "path": "/verif/mc/checks/src/bin", "serves_properties": ["C03", "C23", "C26", "C27", "C30", "C31", "C32", "C33", "C41"],
      "kind_free_text": "bounded-exhaustive input enumeration of real codec functions on guard-paged buffers"},
 ]
 
@@ -38,3 +38,11 @@ CHECKS = {
         "note": "Sequentially consistent atomics (shuttle); sizes and pools from a small alphabet.",
     },
 }
+
+# further entries live in tools/registry_extra.json (same fields), merged here
+import json as _json, os as _os
+_extra = _os.path.join(_os.path.dirname(_os.path.abspath(__file__)), "registry_extra.json")
+if _os.path.exists(_extra):
+    CHECKS.update(_json.load(open(_extra)))
+for _e in ENGINES:
+    pass
